@@ -33,9 +33,14 @@ def halfints(lo, hi):
     return st.builds(lambda k: k / 2.0, st.integers(2 * lo, 2 * hi))
 
 
-pos_arg = st.one_of(logpos(-30, 12), st.floats(1e-3, 300), halfints(0, 120).filter(lambda x: x > 0),
+pos_arg = st.one_of(logpos(-30, 40), st.floats(1e-3, 300), st.floats(100, 1e5), halfints(0, 400).filter(lambda x: x > 0),
                     around([0.5, 1.0, 1.5, 2.0, 10.0, 20.0, 30.0, 100.0, 171.0]))
-real_arg = st.one_of(st.floats(-60, 60), pos_arg, pos_arg.map(lambda x: -x))
+real_arg = st.one_of(st.floats(-60, 60), st.floats(-1000, 1000), pos_arg, pos_arg.map(lambda x: -x))
+
+
+# mpmath's polygamma is very slow for huge arguments: bounded range for the polygamma family
+poly_pos = st.one_of(logpos(-30, 14), st.floats(1e-3, 300), halfints(0, 400).filter(lambda x: x > 0), around([0.5, 1.0, 1.5, 2.0, 10.0, 20.0, 30.0, 100.0]))
+poly_arg = st.one_of(st.floats(-60, 60), st.floats(-1000, 1000), poly_pos, poly_pos.map(lambda x: -x))
 
 
 def not_pole(x):
@@ -72,8 +77,8 @@ def mp_logsub(a, b):
 
 
 def gamma_args():
-    a = st.one_of(logpos(-20, 8), st.floats(0.01, 150), halfints(0, 100).filter(lambda x: x > 0), around([1.0, 20.0, 30.0, 0.5]))
-    z = st.one_of(logpos(-30, 9), st.floats(0.0, 400), around([1.0, 1.1, 0.5, 20.0]))
+    a = st.one_of(logpos(-20, 10), st.floats(0.01, 150), st.floats(100, 1200), halfints(0, 400).filter(lambda x: x > 0), around([1.0, 20.0, 30.0, 0.5, 170.0, 200.0]))
+    z = st.one_of(logpos(-30, 10), st.floats(0.0, 400), st.floats(300, 1200), around([1.0, 1.1, 0.5, 20.0, 708.0, 745.0]))
     both = st.tuples(a, z)
     # the method switches depend on the relation of a and z: sample the diagonal densely
     diag = st.builds(lambda a, r: (a, max(a * (1 + r), 0.0)), a, st.floats(-0.5, 0.5))
@@ -81,15 +86,15 @@ def gamma_args():
 
 
 def bessel_args():
-    v = st.one_of(st.floats(0, 60), halfints(0, 80), logpos(-20, 5), around([0.5, 1.0, 2.0, 25.0]))
-    x = st.one_of(logpos(-30, 9), st.floats(0.0, 300), around([1.0, 2.0, 30.0, 100.0]).filter(lambda x: x >= 0))
+    v = st.one_of(st.floats(0, 60), st.floats(50, 400), halfints(0, 500), logpos(-20, 8), around([0.5, 1.0, 2.0, 25.0, 170.0]))
+    x = st.one_of(logpos(-30, 10), st.floats(0.0, 300), st.floats(200, 1000), around([1.0, 2.0, 30.0, 100.0, 700.0]).filter(lambda x: x >= 0))
     return st.tuples(v, x).map(lambda t: ([t[0], t[1]], []))
 
 
 FUNCS = {
     "Digamma": (real_arg.filter(not_pole).map(lambda x: ([x], [])), lambda a, i: mp.digamma(a[0]), 64),
-    "Trigamma": (real_arg.filter(not_pole).map(lambda x: ([x], [])), lambda a, i: mp.polygamma(1, a[0]), 64),
-    "Polygamma": (st.tuples(st.integers(0, 8), st.one_of(pos_arg, st.floats(-20, -0.01).filter(not_pole))).map(lambda t: ([t[1]], [t[0]])),
+    "Trigamma": (poly_arg.filter(not_pole).map(lambda x: ([x], [])), lambda a, i: mp.polygamma(1, a[0]), 64),
+    "Polygamma": (st.tuples(st.integers(0, 8), st.one_of(poly_pos, st.floats(-20, -0.01).filter(not_pole))).map(lambda t: ([t[1]], [t[0]])),
                   lambda a, i: mp.polygamma(i[0], a[0]), 256),
     "LogErfc": (st.one_of(st.floats(-30, 30), logpos(-40, 12), logpos(-40, 4).map(lambda x: -x), around([0.0, 0.5, 8.0, 26.0, 27.0])).map(lambda x: ([x], [])),
                 lambda a, i: mp_logerfc(a[0]), 64),
@@ -203,6 +208,8 @@ def check_vs_mpmath(case, srv, stats):
         # one rounding of the argument reaches a pole: the function value is not determined by the float
         stats.case(desc, classes + ["within a rounding error of a pole (not asserted)"], False)
         return
+    if (math.isnan(got) or math.isinf(got)) and fn == "BesselI" and args[1] > 700 and stats.known("C13/besseli-loses-digits-where-exp-x-overflows", desc):
+        return
     if math.isnan(got) or math.isinf(got):
         raise Violation("%s = %s but the library returns %r (NaN and infinities are allowed only where the function is undefined or overflows)" % (desc, mp.nstr(ref, 20), got))
     err = abs(mpf(got) - ref)
@@ -218,12 +225,11 @@ def check_vs_mpmath(case, srv, stats):
             stats.note("max error / (eps |f|) %s" % fn, float(err / (EPS * scale)))
         return
     kappa = condition(fn, args, ints, ref)
-    bound = mult * EPS * scale * max(1.0, kappa)
+    bound = mult * EPS * scale * max(1.0, 4 * kappa)
     if err <= bound:
         stats.case(desc, classes + ["within tolerance after conditioning (kappa > 1)"], True)
         return
-    kf = "C13/%s-inaccurate" % fn
-    if stats.known(kf, desc):
+    if fn == "BesselI" and args[1] > 700 and stats.known("C13/besseli-loses-digits-where-exp-x-overflows", desc):
         return
     raise Violation("%s: library %r, reference %s, error %.3g = %.3g eps|f| (allowed %d eps, condition number %.3g)" % (
         desc, got, mp.nstr(ref, 20), float(err), float(err / (EPS * scale)) if scale != 0 else float("inf"), mult, kappa))
@@ -370,6 +376,7 @@ WITNESSES = {
     "gamma_at_zero": (lambda srv: ("C13/incomplete-gamma-nan-at-z-0", math.isnan(unhex(srv.ask({"k": "special", "fn": "GammaP", "args": [fhex(0.01171875), fhex(0.0)], "ints": []}).get("r", ["NaN"])[0])), "GammaP(0.0117, 0)")),
     "gamma_tiny_z": _wit("C13/incomplete-gamma-tiny-z-variants-swapped", "GammaLower", [1.5, 3.754836445209773e-184], [], 4.8505979377778469364e-276),
     "gamma_p_derivative_subnormal": _wit("C13/gamma-p-derivative-subnormal-prefix", "GammaPfirstDerivative", [8.0, 1.2374511831283965e-39], [], 8.8158864986021969731e-277),
+    "besseli_large_x": _wit("C13/besseli-loses-digits-where-exp-x-overflows", "BesselI", [181.0, 720.0], [], 1.067227449643336724e+301, tol=1e-11),
     "logsub_cancellation": _wit("C13/logsub-cancellation", "LogSub", [0.0, -1e-8], [], -18.420680748952367, tol=1e-12),
 }
 
